@@ -23,7 +23,9 @@ import (
 	"strings"
 
 	"github.com/tsawler/tabula"
+	"github.com/tsawler/tabula/docx"
 	"github.com/tsawler/tabula/model"
+	"github.com/tsawler/tabula/odt"
 	"verif/internal/gen/docxw"
 	"verif/internal/gen/odtw"
 	"verif/internal/gen/zipw"
@@ -41,7 +43,7 @@ func sortedKeys(m map[string]bool) []string {
 	return ks
 }
 
-var views = []string{"text", "md", "doc"}
+var views = []string{"text", "md", "doc", "lists"}
 
 type checker struct {
 	e    *harness.Env
@@ -50,12 +52,13 @@ type checker struct {
 }
 
 func run(e *harness.Env) {
-	e.Rule = "documents: (A) every sequence of 1..3 body blocks over the full block alphabet of each format (DOCX 43 letters, ODT 38 letters; listed in docx_alphabet / odt_alphabet), all optional parts present " +
+	e.Rule = "documents: (A) every sequence of 1..3 body blocks over the full block alphabet of each format (DOCX 45 letters, ODT 39 letters; listed in docx_alphabet / odt_alphabet), all optional parts present " +
 		"(quick: length-3 sequences with at most one letter outside the structural sub-alphabet); " +
 		"(B, thorough) every sequence of 4 blocks over the structural sub-alphabet (letters whose effect can cross block boundaries: plain / empty / named-style paragraphs, direct formatting on a styled paragraph, headings, list items, tables, block-level content control) " +
 		"and every sequence of 4 blocks with at most 2 letters other than the plain paragraph over the full alphabet; " +
 		"(C) for every other combination of optional parts (styles / numbering / header / footer absent) and for ExcludeHeadersAndFooters (with and without header / footer parts): every sequence of <= 2 blocks over the full alphabet (thorough: also 3 blocks over the structural sub-alphabet). " +
-		"Each document is read through Text(), ToMarkdown() and Document(); one evaluation = one (document, view, expected block) triple, plus one per (document, view) for the header/footer clause. " +
+		"(D) numbering layout: every sequence of 1..3 (thorough 1..4) letters of the list sub-alphabet additionally with every other layout of word/numbering.xml (1..3 w:abstractNum definitions of differing numFmt / start, declaration order reversed / rotated / minimal, sparse ids, w:num -> w:abstractNum not the identity, a w:num with lvlOverride/startOverride) resp. of the ODT text:list-style definitions (order reversed / rotated / minimal, common vs automatic styles). " +
+		"Each document is read through Text(), ToMarkdown(), Document() and, when it has list items, docx/odt Reader.Lists(); one evaluation = one (document, view, expected block) triple, plus one per (document, view) for the header/footer clause. " +
 		"distinct = distinct descriptors; non-trivial = the block is not a plain one-run paragraph or its document contains any other letter"
 	e.Assumptions = []string{
 		"docxw / odtw write what ECMA-376 / ODF 1.2 prescribe for the logical document (every XML part is checked for well-formedness on every case; no schema validator is available offline)",
@@ -168,7 +171,50 @@ func (c *checker) plan(names []string, structural map[string]bool, first bool, f
 	}
 }
 
-var docxStructural = map[string]bool{"pst": true, "host": true, "plp": true, "lbt": true, "p1": true, "empty": true, "h1": true, "hc": true, "ho": true, "l0": true, "l1": true, "l2": true, "n0": true, "n1": true,
+// planLayouts is plan with the numbering / list-style layout dimension: every sequence of plan runs
+// with the first (plain) layout; in the all-parts default-mode combination every sequence of 1..3
+// (thorough: 1..4) letters of the list sub-alphabet that contains a list letter additionally runs
+// with every other layout.
+func (c *checker) planLayouts(names []string, structural, listLetters map[string]bool, layouts []string, first bool, f func(seq []int, layout string)) {
+	c.plan(names, structural, first, func(seq []int) { f(seq, layouts[0]) })
+	if !first {
+		return
+	}
+	var sub []int
+	for i, n := range names {
+		if listLetters[n] {
+			sub = append(sub, i)
+		}
+	}
+	max := 3
+	if c.e.Thorough() {
+		max = 4
+	}
+	for l := 1; l <= max; l++ {
+		product(len(sub), l, func(s []int) {
+			seq := make([]int, l)
+			lists := false
+			for i, v := range s {
+				seq[i] = sub[v]
+				lists = lists || names[sub[v]] != "p1"
+			}
+			if !lists {
+				return
+			}
+			for _, lay := range layouts[1:] {
+				f(seq, lay)
+			}
+		})
+	}
+}
+
+var docxListLetters = map[string]bool{"p1": true, "l0": true, "l1": true, "l2": true, "n0": true, "n1": true, "c0": true, "d0": true, "lbt": true}
+
+var odtListLetters = map[string]bool{"p1": true, "lb0": true, "lb012": true, "ln01": true, "lc0": true, "lb11": true, "lsp": true}
+
+var odtListLayouts = []string{"id", "rev", "rot", "min", "auto"}
+
+var docxStructural = map[string]bool{"pst": true, "host": true, "plp": true, "lbt": true, "p1": true, "empty": true, "h1": true, "hc": true, "ho": true, "l0": true, "l1": true, "l2": true, "n0": true, "n1": true, "c0": true,
 	"t11": true, "t22": true, "tvm": true, "tnest": true, "bsdt": true}
 
 var odtStructural = map[string]bool{"hbody": true, "lsp": true, "pp4": true, "p1": true, "empty": true, "h1": true, "hc": true, "lb0": true, "lb012": true, "ln01": true, "lb11": true,
@@ -186,13 +232,13 @@ func (c *checker) docx() {
 			if mode == "exclhf" && oi > 1 {
 				continue // ExcludeHeadersAndFooters: with and without header / footer parts
 			}
-			c.plan(names, docxStructural, oi == 0 && mode == "default", func(seq []int) {
+			c.planLayouts(names, docxStructural, docxListLetters, docxNumLayouts, oi == 0 && mode == "default", func(seq []int, layout string) {
 				sn := make([]string, len(seq))
 				for i, s := range seq {
 					sn[i] = names[s]
 				}
-				cs := buildDocx(alpha, seq, o)
-				base := "fmt=docx opt=" + o.name + " mode=" + mode + fmt.Sprintf(" n=%d seq=%s", len(seq), strings.Join(sn, ","))
+				cs := buildDocx(alpha, seq, o, layout)
+				base := "fmt=docx opt=" + o.name + " mode=" + mode + " num=" + layout + fmt.Sprintf(" n=%d seq=%s", len(seq), strings.Join(sn, ","))
 				for _, f := range cs.shape {
 					base += " shape=" + f
 				}
@@ -218,13 +264,13 @@ func (c *checker) odt() {
 			if mode == "exclhf" && oi > 1 {
 				continue
 			}
-			c.plan(names, odtStructural, oi == 0 && mode == "default", func(seq []int) {
+			c.planLayouts(names, odtStructural, odtListLetters, odtListLayouts, oi == 0 && mode == "default", func(seq []int, layout string) {
 				sn := make([]string, len(seq))
 				for i, s := range seq {
 					sn[i] = names[s]
 				}
-				cs := buildOdt(alpha, seq, o)
-				base := "fmt=odt opt=" + o.name + " mode=" + mode + fmt.Sprintf(" n=%d seq=%s", len(seq), strings.Join(sn, ","))
+				cs := buildOdt(alpha, seq, o, layout)
+				base := "fmt=odt opt=" + o.name + " mode=" + mode + " num=" + layout + fmt.Sprintf(" n=%d seq=%s", len(seq), strings.Join(sn, ","))
 				for _, f := range cs.shape {
 					base += " shape=" + f
 				}
@@ -250,6 +296,15 @@ func subDesc(base, view string, x *expect, bi int) string {
 		d += " has=" + f
 	}
 	return d
+}
+
+func hasItems(x *expect) bool {
+	for _, b := range x.blocks {
+		if b.kind == kItem {
+			return true
+		}
+	}
+	return false
 }
 
 func hasHF(x *expect) bool {
@@ -330,6 +385,9 @@ func (c *checker) evaluate(base, only, format, mode string, ms []zipw.Member, x 
 		if only != "" && !strings.Contains(only, " view="+v+" ") {
 			continue
 		}
+		if v == "lists" && (mode != "default" || !hasItems(x)) {
+			continue // Reader.Lists() has no extraction options; only documents with list items are read through it
+		}
 		var vd *verdicts
 		var whole *failure // failure of the whole view (error, panic)
 		out := ""
@@ -349,6 +407,38 @@ func (c *checker) evaluate(base, only, format, mode string, ms []zipw.Member, x 
 					return
 				}
 				vd, out = checkMarkdown(x, toks, s), "ToMarkdown():\n"+s
+			case "lists":
+				var ls []obsList
+				if format == "docx" {
+					r, err := docx.Open(path)
+					if err != nil {
+						whole = failf("error:lists", "docx.Open: %v", err)
+						return
+					}
+					for _, l := range r.Lists() {
+						ol := obsList{ordered: l.Type == docx.ListTypeOrdered}
+						for _, it := range l.Items {
+							ol.items = append(ol.items, obsItem{it.Text, it.Level})
+						}
+						ls = append(ls, ol)
+					}
+					r.Close()
+				} else {
+					r, err := odt.Open(path)
+					if err != nil {
+						whole = failf("error:lists", "odt.Open: %v", err)
+						return
+					}
+					for _, l := range r.Lists() {
+						ol := obsList{ordered: l.Type == odt.ListTypeOrdered}
+						for _, it := range l.Items {
+							ol.items = append(ol.items, obsItem{it.Text, it.Level})
+						}
+						ls = append(ls, ol)
+					}
+					r.Close()
+				}
+				vd, out = checkLists(x, toks, ls), "Lists():\n"+dumpLists(ls)
 			case "doc":
 				var d *model.Document
 				d, _, err := open().Document()
@@ -383,13 +473,16 @@ func (c *checker) evaluate(base, only, format, mode string, ms []zipw.Member, x 
 			}
 		}
 		for bi, b := range x.blocks {
+			if v == "lists" && (b.kind == kTable || b.loose) {
+				continue // Lists() says nothing about tables; loose blocks have no demanded kind
+			}
 			var f *failure
 			if vd != nil {
 				f = vd.blk[bi]
 			}
 			report(bi, f, !plainDoc, outcomeClass(v, b))
 		}
-		if hasHF(x) || len(x.blocks) == 0 {
+		if v != "lists" && (hasHF(x) || len(x.blocks) == 0) {
 			var f *failure
 			if vd != nil {
 				f = vd.hf
